@@ -33,21 +33,21 @@ ID = 'C09'
 LEAN_MODULES = ['PybtexModel.Props.C09']
 THEOREMS = {
     'C09_tables': 'the regenerated tables have the shape the theorems rely on: markdown SPECIAL_CHARS covers the fixed list of characters Markdown lets one backslash-escape (dropping one breaks the build), has no duplicates, the backslash first; html escapes are the three entities; every symbol of every backend is non-empty, brace-balanced in LaTeX, an entity or plain characters in HTML; the symbols are written as the FIXED tables of the specification say (plain text: - / blank / blank; Markdown: one of the documented forms; LaTeX: -- ~ \\newblock); the LaTeX codec table maps no ASCII character to text containing a brace, its entries are control symbols of escapable characters or text control words and cover every special character except \\ { } $ ^; the non-ASCII part of the table is ASCII-valued, non-empty and brace-balanced',
-    'C09_html_wellformed': 'HTML: for identifier-like tag names and quote-free URLs the output is well formed -- the strict reader accepts it and finds every character inside exactly the elements of the markup attached to it',
-    'C09_html_text': 'HTML: the character data of the output (entities read back) equals the plain text',
-    'C09_md_escaped': 'Markdown: every String is emitted character by character: a character of the escape list as backslash + itself, & < > as entities, everything else unchanged; the reader undoes it; holds for every String part of the rendering of every tree (token level)',
+    'C09_html_wellformed': 'HTML, under HtmlOK t (identifier-like tag names, quote-free URLs): the output is well formed - the strict string reader Html.read accepts it and finds every character inside exactly the elements of the markup attached to it (attribute contents are skipped, not checked)',
+    'C09_html_text': 'HTML, under HtmlOK t (identifier-like tag names, quote-free URLs): the character data of the output as the strict reader Html.read finds it (entities read back) equals the plain text; Html.read skips attribute contents, so the URL text inside href="..." is never checked (NOT-claimed list)',
+    'C09_md_escaped': "Markdown, string level (parts 1-3): a String is emitted character by character - escape-list characters as backslash + itself, & < > as entities, the rest unchanged - and the reader undoes it; part 4 SELF-LABELLED TOKEN LEVEL (relative to markdownTok, the spec's token copy of the backend; RTok.read reads the labels, never the emitted strings): 'every str token carries the escaped form' is [model wiring]; that Markdown reads * ` []() as that markup: harness CommonMark reader only",
     'C09_latex_balanced': 'LaTeX: when every String part (after the codec) and every URL is brace-balanced the whole output is brace-balanced',
     'C09_latex_balanced_neg': 'LaTeX: the hypothesis cannot be dropped -- Tag(em, "a}") renders as \\emph{a}} (finding C09-latex-text-passthrough)',
-    'C09_latex_scope': 'LaTeX: the emitted string is the flattening of a token sequence (markup-open | markup-close | text) whose markup tokens are well nested and in which every atom is enclosed by exactly the tags / links / protected groups attached to it; \\url{URL} is emitted exactly when the rendered link text is the encoded URL',
+    'C09_latex_scope': "LaTeX, SELF-LABELLED TOKEN LEVEL (relative to latexTok, the spec's second copy of the backend emitting labelled tokens open m | close m | text s with their output pieces): the output is the concatenation of the pieces and the LABELS (RTok.read never reads the pieces) nest correctly around the atoms; NOT shown: that LaTeX reads the string \\emph{...} as that scope (string level: only C09_latex_balanced, C09_latex_inert_partial); under the \\url{URL} shorthand (iff link text = encoded URL) text tokens are muted: atoms 'read' that are not in the output",
     'C09_latex_inert_partial': 'LaTeX, string level, "never let it act as markup": what format_str emits for a String without the five characters \\ { } $ ^ is read back by LaTeX (reader Tex.readText: category codes, control symbols, control words that swallow blanks) as exactly that string, alone and directly behind a control word',
     'C09_latex_inert_neg': 'LaTeX: each of \\ { } $ ^ goes through the codec unescaped and is not read as text; "$x^2$ \\foo{" is written unchanged (finding C09-latex-text-passthrough)',
-    'C09_latex_encoding': 'latex.Backend(encoding) for every encoding that contains ASCII: an encoded String is representable in the encoding, non-erased, of the same brace depth; the encoder fails exactly on a character the encoding lacks and the table does not translate; a successful rendering is representable (URLs permitting), is the rendering of the total backend over the encoder\'s total extension -- hence well nested at token level and brace-balanced when its parts are --; the first exception in evaluation order is raised; UTF-8 is the total encoder',
+    'C09_latex_encoding': "latex.Backend(encoding), any encoding containing ASCII: an encoded String is representable, non-erased, same brace depth; the encoder fails exactly on a character the encoding lacks and the table does not translate; a successful rendering is representable (URLs permitting) and = the rendering of the total backend - hence 3(c) nested at SELF-LABELLED TOKEN level only (as C09_latex_scope: the spec's labels, not a reading of the string), 3(d) brace-balanced when parts and URLs are; first exception in evaluation order; UTF-8 = total encoder",
     'C09_plain': 'plain text: the output is the text with symbols replaced by their plain equivalents (the fixed table of the specification)',
     'C09_symbols': 'every backend writes for the three symbols what the fixed tables of the specification say (HTML: something read back as the symbol\'s text); any other symbol is a KeyError in every backend',
     'C09_empty_vanishes': 'an empty tagged or linked fragment renders as the empty string in all four backends',
-    'C09_from_latex_depth': 'from_latex: for a brace-balanced (decoded) value the rich text has every character at its brace depth (as nesting of Protected) -- adjacent groups merge, empty groups vanish -- and, when the codec leaves the characters alone, the depth sequence of the LaTeX rendering equals that of the value; an unbalanced value yields the syntax error located behind the first closing brace that closes nothing, else behind the last brace',
-    'C09_encode': 'the modelled ASCII part of the latexcodec encoder satisfies the assumptions the LaTeX theorems make about the codec: nothing is erased, brace-free text stays brace-free, balanced text stays balanced, characters outside the table are passed through',
-    'C09_document': 'write_to_stream writes the prologue, every entry in order (its rendering inside the entry frame), the epilogue -- for every bibliography including the empty one (fix C09-1); the longest label is the first of maximal width',
+    'C09_from_latex_depth': 'from_latex: for a brace-balanced (decoded) value every character sits at its brace depth (nesting of Protected; adjacent groups merge, empty groups vanish); part 2, depth round trip through the LaTeX backend, ONLY when the encoder leaves all non-brace characters of the value alone (hypothesis P; for the modelled codec Latex.transparent: no # % & _ ~ \\ $ ^ ...); an unbalanced value yields the syntax error behind the first closing brace that closes nothing, else behind the last brace',
+    'C09_encode': 'the modelled ASCII part of the latexcodec encoder satisfies what the LaTeX theorems assume: nothing erased, brace depth kept (balanced stays balanced), identity on Latex.transparent characters (outside its table); part 5, depth round trip from_latex -> LaTeX, ONLY for balanced values of transparent characters (no # % & _ ~ ...); for other values only depthAfter preservation and part 1 of C09_from_latex_depth are available',
+    'C09_document': 'part 1 [model wiring]: writeToStream is DEFINED as prologue ++ writeEntries ++ epilogue; the statement re-expresses the recursion as a zipWith over the entries (carried by the correspondence check on whole documents); real content, parts 2-4: a document is written whenever every entry renders (also the empty bibliography, fix C09-1); longestLabel is an element of maximal width, the first such',
     'C09_document_frame': 'the frame of an entry: HTML is well formed whatever the label (label inside <dt>, text inside <dd>; fix C09-2), Markdown escapes the label like every string (fix C09-2), and for a label without braces TeX reads the optional argument of \\bibitem as the label, also when it contains ] (fix C09-3), followed by the key',
     'C09_document_frame_neg': 'LaTeX writes label and key verbatim: an unbalanced brace in the label leaves \\bibitem[ without argument, A&B is written unescaped and not read as text (finding C09-latex-label-verbatim)',
 }
@@ -55,16 +55,25 @@ LEVEL_TEXT = ('Machine-checked proofs (Lean 4) over an executable model that fol
               'pybtex/markup/__init__.py and Text.from_latex function by function, stated against small independent readers of the output '
               'formats (a strict HTML fragment reader, a Markdown un-escaper, a brace-depth reader, a token reader that checks nesting, LaTeX\'s reading of text by category codes, '
               'TeX\'s reading of an optional argument): HTML output is well formed and reads back as the text inside the right elements, for whole entries whatever the label; Markdown '
-              'escapes every character of the fixed escapable set; LaTeX markup is well nested and encloses exactly the atoms it was attached to (token level), is brace-balanced at string '
+              'escapes every character of the fixed escapable set; LaTeX / Markdown markup is well nested around exactly the atoms it was attached to at SELF-LABELLED TOKEN level only (the spec '
+              'carries a second copy of the backend emitting labelled tokens; proved: the output is the concatenation of their pieces and the LABELS nest correctly - not that LaTeX / '
+              'Markdown reads the emitted string as that markup; only HTML has a genuine string reader for markup), LaTeX output is brace-balanced at string '
               'level whenever the text parts are, and text without the five characters \\ { } $ ^ is read back by LaTeX as text (string level); the LaTeX backend created with any '
-              'encoding writes representable, equally nested output or raises; plain text is the text with symbols replaced by fixed plain equivalents; every backend writes the symbols '
-              'the fixed tables name; empty tags / links vanish; from_latex keeps every character at its brace depth and locates unbalanced braces.  Tables (escapes, SPECIAL_CHARS, tags, '
+              'encoding writes representable, equally nested (token level) output or raises; plain text is the text with symbols replaced by fixed plain equivalents; every backend writes the symbols '
+              'the fixed tables name; empty tags / links vanish; from_latex keeps every character at its brace depth (round trip through the LaTeX backend only for values the encoder leaves alone) and locates unbalanced braces.  Tables (escapes, SPECIAL_CHARS, tags, '
               'symbols, prologue, the ASCII and non-ASCII parts of the latexcodec encoder) are regenerated from /repo and the codec on every run; the model is tied to the code by a '
               'correspondence check over an exhaustive small scope (all strings of length <=2 over the 25 metacharacters + a letter + a blank, x 4 backends; all C08 trees; every tag name x '
               'link mode x backend; Markdown code spans / emphasis runs / link syntax; non-ASCII words x encodings; labels and keys over the metacharacters x every document configuration; '
               'write_to_file; all short brace strings) and random trees / values / documents; the implementation output is additionally read by Python html.parser, a LaTeX reader and a '
               'CommonMark inline reader (harness/props/c09_readers.py).')
 LEVEL_NOTE = ('Trusted: Lean kernel; axioms propext/Classical.choice/Quot.sound only; the readers and token type of Spec/Backends.lean must be read and agreed with; '
+              'TOKEN LEVEL means: latexTok / markdownTok (Spec/Backends.lean) are a second copy of the backend emitting tokens opn m out | cls m out | str s out; RTok.read reads only '
+              'the labels m / s, never the emitted strings out: RTok.read toks = sem [] t says the spec\'s own labelling nests correctly, flatten toks = out that the output is the '
+              'concatenation of the pieces; string-level support for LaTeX is only brace balance (under hypotheses) and the inert-text theorem (minus \\ { } $ ^); under the \\url '
+              'shorthand the text tokens are muted (atoms are read that are not in the output); how Markdown reads emphasis / code spans / links is checked by the harness CommonMark '
+              'reader only.  C09_document part 1 and C09_md_escaped part 4 (o = escaped s) are model wiring.  HTML theorems need HtmlOK (identifier-like tag names, quote-free URLs); '
+              'Html.read skips attribute contents.  The depth round trip from_latex -> LaTeX (C09_from_latex_depth part 2, C09_encode part 5) holds only for values of characters '
+              'the encoder leaves alone (Latex.transparent: no # % & _ ~ ...).  '
               'the model corresponds to the code only as far as the differential check explores.  ASSUMED, not verified: latexcodec -- the encoder is a parameter of the model '
               '(theorems state what they need of it: non-erasing, brace-free/balanced text stays so, identity on the characters of the value for the string-level depth claim); '
               'its instances are the two-state machine (blank after a control word) over the ASCII table regenerated by probing the real codec on code points 0..127 and all '
